@@ -42,9 +42,9 @@ CHECK = {
          "params": {"per": 24},
          "case_timeout": 300},
         {"name": "general", "variant": "asan", "harness": "c02_boolean.cpp",
-         "cases": {"quick": 320, "thorough": 5000},
+         "cases": {"quick": 400, "thorough": 4000},
          "params": {"sharedTris": {"quick": 12, "thorough": 16}, "ownTris": {"quick": 12, "thorough": 16},
-                    "strata": 4},
+                    "strata": 4, "detail": {"quick": 1, "thorough": 3}},
          "case_timeout": 600},
     ],
     "assumptions": [
